@@ -80,7 +80,8 @@ def extract(config="K2", repo=REPO, force=False):
     try:
         if os.path.exists(out) and not force:
             return out
-        if not os.path.exists(DRIVER):
+        srcs = glob.glob(os.path.join(VERIF, "driver", "src", "*.rs"))
+        if not os.path.exists(DRIVER) or any(os.path.getmtime(x) > os.path.getmtime(DRIVER) for x in srcs):
             build_driver()
         # a target dir per (repo path, config): cargo's freshness cache is defeated by removing
         # the fingerprints of the workspace members before each extraction
